@@ -250,8 +250,8 @@ int main() {
         if (!fired) { n = k - 1; break; }
         if (errno != ENOMEM) { out = "DIFF k=" + std::to_string(k) + " allocation failure not reported through errno==ENOMEM (errno=" + std::to_string(errno) + ")"; break; }
         if (res != 0) { out = "DIFF k=" + std::to_string(k) + " allocation failure not reported through the return value"; break; }
+        if ((op == "rehash" || op == "reserve" || op == "ltrehash" || op == "ltreserve") && vt_hashpower(c) != hp0) { out = "DIFF k=" + std::to_string(k) + " failed " + op + " changed the hashpower"; break; }
         if (!clt) { Abs now = abs_of_c(c); if (now != before) { out = "DIFF k=" + std::to_string(k) + " table contents changed by the failed call"; break; } }
-        if ((op == "rehash" || op == "reserve") && vt_hashpower(c) != hp0) { out = "DIFF k=" + std::to_string(k) + " failed " + op + " changed the hashpower"; break; }
       }
       if (out == "ok") {
         // the op has now completed once without fault: mirror it on the reference
